@@ -4,6 +4,7 @@ package main
 // calls by contract, inlining, havoc.
 
 import (
+	"os"
 	"fmt"
 	"go/ast"
 	"go/token"
@@ -13,7 +14,7 @@ import (
 )
 
 var ghostBuiltins = map[string]bool{
-	"requires": true, "ensures": true, "ensuresGoal": true, "ensuresTrusted": true, "assert": true, "assume": true, "imp": true, "iff": true, "old": true,
+	"requires": true, "domain": true, "ensures": true, "ensuresGoal": true, "ensuresTrusted": true, "assert": true, "assume": true, "imp": true, "iff": true, "old": true,
 	"forall": true, "exists": true, "forallIn": true, "existsIn": true, "forallStr": true, "modifiesTail": true, "modifiesElems": true, "modifiesPtr": true, "modifiesAll": true, "modifiesMap": true,
 	"freshSlice": true, "sameBase": true, "sameArray": true, "suffixOf": true, "viewOf": true, "offsetIn": true, "disjointFromTail": true, "bytesEq": true, "strBytesEq": true, "allocated": true, "sameOrDisjoint": true, "unchangedElems": true, "identical": true,
 	"covers": true,
@@ -36,6 +37,7 @@ type contractRun struct {
 	hasMods  bool
 	isLemma  bool
 	asCallee bool
+	own      bool // the contract of the function being verified (its requires are assumed)
 }
 
 func (c *VC) staticCallee(call *ast.CallExpr) *types.Func {
@@ -191,6 +193,19 @@ func (c *VC) evalCall1(st *State, call *ast.CallExpr) []*Term {
 		}
 		return c.havocCall(st, fn, args, call)
 	}
+	// interface method declared pure (//@ pure pkg.Iface.Method): an uninterpreted function of
+	// the receiver value and the arguments
+	if se, ok := ast.Unparen(call.Fun).(*ast.SelectorExpr); ok {
+		if sel := view.selection(se); sel != nil && sel.Kind() == types.MethodVal {
+			if im, ok := sel.Obj().(*types.Func); ok {
+				if _, isIface := sel.Recv().Underlying().(*types.Interface); isIface && c.isPureName(im) {
+					if args, ok := c.evalArgs(st, im, call); ok {
+						return c.havocCall(st, im, args, call)
+					}
+				}
+			}
+		}
+	}
 	// dynamic: call of a function literal bound in this frame?
 	if id, ok := ast.Unparen(call.Fun).(*ast.Ident); ok {
 		if obj := view.objOf(id); obj != nil {
@@ -203,6 +218,25 @@ func (c *VC) evalCall1(st *State, call *ast.CallExpr) []*Term {
 	}
 	if lit, ok := ast.Unparen(call.Fun).(*ast.FuncLit); ok && c.inlineDepth < 8 {
 		return c.inlineLit(st, lit, call)
+	}
+	// call through a func-typed variable declared pure for this VC (//@ pure-funcvalues): an
+	// uninterpreted function of the func value and the arguments
+	if id, ok := ast.Unparen(call.Fun).(*ast.Ident); ok && c.pureFuncValues() {
+		if v, ok := view.objOf(id).(*types.Var); ok && !v.IsField() {
+			if _, isSig := v.Type().Underlying().(*types.Signature); isSig {
+				c.assumptions["calls through func-typed variables are pure (the callback's result depends only on its arguments): assumed for this function's contract"] = true
+				uargs := []*Term{c.eval(st, id)}
+				for _, a := range call.Args {
+					uargs = append(uargs, c.eval(st, a))
+				}
+				var res []*Term
+				for i, rt := range c.resultTypes(call) {
+					r := c.uf(fmt.Sprintf("funcval_%s_%d", sanitize(types.TypeString(v.Type(), nil)), i), c.sortOf(rt), uargs...)
+					res = append(res, r)
+				}
+				return res
+			}
+		}
 	}
 	// evaluate operands for effects then havoc
 	c.evalFunOperand(st, call.Fun)
@@ -646,6 +680,38 @@ func (c *VC) intrinsic(st *State, fn *types.Func, call *ast.CallExpr) ([]*Term, 
 		if r, ok := c.sortSliceIntrinsic(st, call); ok {
 			return r, true
 		}
+	case "strings.IndexByte":
+		// documented: index of the first instance of c in s, or -1
+		sv := c.eval(st, call.Args[0])
+		cv := c.eval(st, call.Args[1])
+		r := c.uf("pure_strings_IndexByte", c.sortOf(it), sv, cv)
+		if !c.noName && c.quantDepth == 0 {
+			key := "ib:" + r.String()
+			if !c.specAxioms[key] {
+				c.specAxioms[key] = true
+				ln := mkField(sv, "st_len")
+				k := c.boundVar("k", c.idxSort())
+				if c.mode == ModeInt {
+					c.varBounds[k.Op] = interval{bigInt(0), pow2(maxLenBits)}
+				}
+				neg := c.cmp(token.LSS, r, c.idxLit(0), it)
+				c.addFact(tTrue, mkAnd(c.cmp(token.LEQ, c.idxLit(-1), r, it), c.cmp(token.LSS, r, ln, it)))
+				c.addFact(tTrue, mkImplies(mkNot(neg), mkEq(c.strByte(sv, r), cv)))
+				upper := mkIte(neg, ln, r)
+				c.addFact(tTrue, mkForall([]*Term{k}, mkImplies(mkAnd(c.cmp(token.LEQ, c.idxLit(0), k, it), c.cmp(token.LSS, k, upper, it)),
+					mkNot(mkEq(c.strByte(sv, k), cv)))))
+			}
+		}
+		return []*Term{r}, true
+	case "strings.TrimPrefix":
+		// documented: s without the leading prefix, or s unchanged
+		sv := c.eval(st, call.Args[0])
+		pv := c.eval(st, call.Args[1])
+		ls, lp := mkField(sv, "st_len"), mkField(pv, "st_len")
+		sub := mkCtor(c.strSort(), mkField(sv, "st_arr"), mkField(sv, "st_off"), lp)
+		has := mkAnd(c.cmp(token.GEQ, ls, lp, it), c.strEqual(sub, pv))
+		cut := mkCtor(c.strSort(), mkField(sv, "st_arr"), c.binop(token.ADD, mkField(sv, "st_off"), lp, it), c.binop(token.SUB, ls, lp, it))
+		return []*Term{mkIte(has, cut, sv)}, true
 	case "strings.HasPrefix", "strings.HasSuffix", "bytes.HasPrefix", "bytes.HasSuffix":
 		// defined by the documentation: s begins (ends) with prefix (suffix)
 		asStr := func(e ast.Expr) *Term {
@@ -863,7 +929,11 @@ func isErrorCtor(name string) bool {
 }
 
 func (c *VC) havocDynamic(st *State, call *ast.CallExpr, args []*Term) []*Term {
-	c.havocked["dynamic call "+exprText(c.prog.fset, call.Fun)] = true
+	fc := c.fieldContractFor(call)
+	if fc == nil {
+		c.havocked["dynamic call "+exprText(c.prog.fset, call.Fun)] = true
+	}
+	pre := st.clone()
 	c.checkUnknownWrites(st, call.Pos(), exprText(c.prog.fset, call.Fun))
 	c.havocHeaps(st)
 	na := c.fresh("alloc", sortInt)
@@ -875,7 +945,101 @@ func (c *VC) havocDynamic(st *State, call *ast.CallExpr, args []*Term) []*Term {
 		c.addFact(tTrue, c.wfAt(st, r, rt))
 		res = append(res, r)
 	}
+	if fc != nil {
+		// a call through a function-typed struct field for which the ghost file states a contract that
+		// every function stored in that field must satisfy: requires are obligations here, ensures are
+		// ASSUMED (the effects stay "anything": the heaps were havocked above)
+		c.assumptions["calls through "+strings.TrimPrefix(fc.Obj.Name(), "fieldcontract_")+" are assumed to satisfy "+fc.Name+" (table invariant; proved only for the functions that have a sig-lemma)"] = true
+		kps := paramObjs(fc)
+		for i, p := range kps {
+			if i < len(args) {
+				pre.env[p] = args[i]
+			}
+		}
+		ctext := exprText(c.prog.fset, call.Fun)
+		run := &contractRun{phase: 1}
+		inSpec := c.ghost > 0
+		run.onReq = func(text string, pos token.Pos, g *State, t *Term) {
+			if inSpec {
+				return
+			}
+			c.addObl("call-pre", ctext+": "+text, call.Pos(), g.pc, t)
+		}
+		c.runContract(pre, fc, run)
+		post := st.clone()
+		for i, p := range kps {
+			if i < len(args) {
+				post.env[p] = args[i]
+			}
+		}
+		for i, r := range resultObjs(fc) {
+			if i < len(res) {
+				post.env[r] = res[i]
+			}
+		}
+		run2 := &contractRun{phase: 2, old: pre, asCallee: true}
+		run2.onEns = func(text string, pos token.Pos, g *State, t *Term) {
+			c.addFact(g.pc, t)
+		}
+		c.runContract(post, fc, run2)
+	}
 	return res
+}
+
+// fieldContractFor: the call goes through a function-typed field T.f of a named struct type and
+// the package of T declares the ghost function fieldcontract_T_f.
+func (c *VC) fieldContractFor(call *ast.CallExpr) *FuncInfo {
+	sel, ok := ast.Unparen(call.Fun).(*ast.SelectorExpr)
+	if !ok {
+		return nil
+	}
+	s := c.cur().view.selection(sel)
+	if os.Getenv("GOVC_DBG") != "" {
+		fmt.Fprintf(os.Stderr, "fieldContractFor %s sel=%v\n", exprText(c.prog.fset, call.Fun), s)
+	}
+	if s == nil || s.Kind() != types.FieldVal {
+		return nil
+	}
+	recv := s.Recv()
+	if p, ok := recv.Underlying().(*types.Pointer); ok {
+		recv = p.Elem()
+	}
+	// walk embedded path to the struct that declares the field
+	fld, _ := s.Obj().(*types.Var)
+	if fld == nil || fld.Pkg() == nil {
+		return nil
+	}
+	owner := ""
+	sc := fld.Pkg().Scope()
+	for _, n := range sc.Names() {
+		tn, ok := sc.Lookup(n).(*types.TypeName)
+		if !ok {
+			continue
+		}
+		st, ok := tn.Type().Underlying().(*types.Struct)
+		if !ok {
+			continue
+		}
+		for i := 0; i < st.NumFields(); i++ {
+			if st.Field(i) == fld {
+				owner = tn.Name()
+			}
+		}
+	}
+	if owner == "" {
+		return nil
+	}
+	fi := c.prog.byName[c.fn.Pkg.Types.Name()+".fieldcontract_"+owner+"_"+fld.Name()] // stated by the calling package
+	if fi == nil {
+		fi = c.prog.byName[fld.Pkg().Name()+".fieldcontract_"+owner+"_"+fld.Name()]
+	}
+	if fi == nil {
+		fi = c.prog.byName[fld.Pkg().Path()+".fieldcontract_"+owner+"_"+fld.Name()]
+	}
+	if fi == nil || fi.Kind != "fieldcontract" {
+		return nil
+	}
+	return fi
 }
 
 // ---------------------------------------------------------------- inlining
@@ -1215,6 +1379,14 @@ func (c *VC) inlineLit(st *State, lit *ast.FuncLit, call *ast.CallExpr) []*Term 
 		}
 	}
 	return vals
+}
+
+func (c *VC) pureFuncValues() bool {
+	d := c.fn.Dir
+	if c.fn.Contract != nil {
+		d = c.fn.Contract.Dir
+	}
+	return d != nil && d.PureFuncValues
 }
 
 func (c *VC) isAbstract(fi *FuncInfo) bool {
